@@ -57,7 +57,7 @@ package resolver
 //@   prop C19 C17
 //@   safety
 //@   nullable method
-//@   assume-benign
+//@   modifies nothing
 //@   ensures [method-without-key-is-refused] method == nil || (method.Type == ssi.JsonWebKey2020 && method.PublicKeyJwk == nil) ==> !isNilIface(result.1)
 //@   ensures [key-of-that-method] isNilIface(result.1) ==> did(call (did.VerificationMethod).PublicKey #1) && same(arg(call (did.VerificationMethod).PublicKey #1, 0), *method)
 //@        && result.0 == ret(call (did.VerificationMethod).PublicKey #1).0 && isNilIface(ret(call (did.VerificationMethod).PublicKey #1).1)
